@@ -101,6 +101,10 @@ class Engine(OpsMixin):
             except RecursionError:
                 raise Unsupported("recursion limit")
             except Exception as e:  # escaped from the harness
+                import os
+                if os.environ.get("PYSYM_TRACE"):
+                    import traceback
+                    traceback.print_exc()
                 site = "escaped:" + type(e).__name__
                 self.sites_reached[site] = self.sites_reached.get(site, 0) + 1
                 self.record_violation(site, None, exc=e)
@@ -419,7 +423,7 @@ class Engine(OpsMixin):
         if hit is not None:
             return hit
         try:
-            lines, start = inspect.getsourcelines(fn)
+            lines, start = inspect.getsourcelines(code)   # the code object: never follows __wrapped__
         except (OSError, TypeError) as e:
             raise Unsupported(f"no source for {fn}: {e}")
         src = textwrap.dedent("".join(lines))
